@@ -159,9 +159,11 @@ func (k Keeper) WithdrawEarnedFees(ctx sdk.Context, owner, provider sdk.AccAddre
 
 		k.DeleteEarnedFees(ctx, provider)
 
-		if earnedFees.Equal(ownerEarnedFees) {
-			k.DeleteOwnerEarnedFees(ctx, owner)
-		} else {
+		// the tally is stored per denom and SetOwnerEarnedFees only writes the denoms
+		// present in its argument: clear it first, so that a denom whose amount drops
+		// to zero does not keep its old entry
+		k.DeleteOwnerEarnedFees(ctx, owner)
+		if !earnedFees.Equal(ownerEarnedFees) {
 			k.SetOwnerEarnedFees(ctx, owner, ownerEarnedFees.Sub(earnedFees...))
 		}
 
